@@ -311,8 +311,30 @@ def parse_primary(p, no_struct):
                 body = p.skip_balanced("{", "}")
             return ("macro", path[-1], body)
         if p.at("{") and not no_struct and path[-1][0].isupper():
-            p.skip_balanced("{", "}")
-            return ("struct", path)
+            # struct literal: keep the field initialisers (name, expr or None for the shorthand)
+            save = p.i
+            try:
+                p.eat("{")
+                fields = []
+                while not p.at("}"):
+                    if p.at(".."):
+                        p.next()
+                        parse_expr(p)
+                        break
+                    fname = p.next()
+                    if p.at(":"):
+                        p.next()
+                        fields.append((fname, parse_expr(p)))
+                    else:
+                        fields.append((fname, None))
+                    if p.at(","):
+                        p.next()
+                p.eat("}")
+                return ("struct", path, fields)
+            except TranslateError:
+                p.i = save
+                p.skip_balanced("{", "}")
+                return ("struct", path, None)
         return ("path", path)
     raise TranslateError("sign.rs: unexpected token %r in expression" % v)
 
@@ -932,7 +954,7 @@ class Translator:
             raise TranslateError("sign.rs: unsupported expression statement %r" % (e,))
         if k == "return":
             e = s[1]
-            if e[0] == "call" and e[1] == ("path", ["Err"]) and len(e[2]) == 1 and e[2][0] == ("struct", ["SignError", "UnexpectedResponse"]):
+            if e[0] == "call" and e[1] == ("path", ["Err"]) and len(e[2]) == 1 and e[2][0][0] == "struct" and e[2][0][1] == ["SignError", "UnexpectedResponse"]:
                 return ".fail"
             plain = {kk: vv for kk, vv in ctx.items() if kk not in ("break_k", "loop_end")}
             v = self.ret_value(e, env)
